@@ -163,6 +163,39 @@ void harness_static_ctx(void) {
 }
 #endif
 
+#ifdef C20_LIFE
+/* ---- (3) context life cycle: create (malloc) / preallocated create / clone / preallocated clone / randomize / destroy ---- */
+static int malloc_calls;
+void *STUB_checked_malloc(const secp256k1_callback *cb, size_t size) { (void)cb; malloc_calls++; return malloc(size); }
+int STUB_secp256k1_selftest_passes(void) { return 1; }     /* the self test hashes a fixed vector with the real compression function: concrete, not a solver question */
+void STUB_secp256k1_ecmult_gen_scalar_diff(secp256k1_scalar *diff) { static const secp256k1_scalar d = SECP256K1_SCALAR_CONST(0, 0, 0, 0, 0, 0, 0, 7); *diff = d; }   /* an opaque public constant */
+static int gen_same(const secp256k1_ecmult_gen_context *a, const secp256k1_ecmult_gen_context *b) {
+    return a->built == b->built && memcmp(a->scalar_offset.d, b->scalar_offset.d, 32) == 0 && memcmp(a->ge_offset.x.n, b->ge_offset.x.n, 40) == 0 && memcmp(a->ge_offset.y.n, b->ge_offset.y.n, 40) == 0
+        && a->ge_offset.infinity == b->ge_offset.infinity && memcmp(a->proj_blind.n, b->proj_blind.n, 40) == 0;
+}
+void harness_lifecycle(void) {
+    in_t in = nondet_in(); secp256k1_context *c, *cl, *pc, *pcl; static secp256k1_context mem1, mem2; int r;
+    malloc_calls = 0; uf_gen_calls = 0; uf_sha_calls = 0; uf_sha_cap = 1 << 20; verif_illegal_count = verif_error_count = 0;
+    c = secp256k1_context_create(SECP256K1_CONTEXT_NONE);
+    __CPROVER_assert(c != NULL && malloc_calls == 1, "context_create performs exactly one allocation");
+    __CPROVER_assert(c->ecmult_gen_ctx.built == 1 && c->declassify == 0 && c->hash_ctx.fn_sha256_compression == secp256k1_sha256_transform, "created context: built, default compression, not declassifying");
+    pc = secp256k1_context_preallocated_create(&mem1, SECP256K1_CONTEXT_NONE);
+    __CPROVER_assert(pc == &mem1 && malloc_calls == 1 && gen_same(&pc->ecmult_gen_ctx, &c->ecmult_gen_ctx) && pc->hash_ctx.fn_sha256_compression == c->hash_ctx.fn_sha256_compression, "preallocated_create yields the same state in caller memory, without allocating");
+    r = secp256k1_context_randomize(c, in.f1 ? NULL : in.a32);
+    __CPROVER_assert(r == 1 && c->ecmult_gen_ctx.built == 1, "randomize succeeds on a proper context");
+    cl = secp256k1_context_clone(c);
+    __CPROVER_assert(cl != NULL && cl != c && malloc_calls == 2 && gen_same(&cl->ecmult_gen_ctx, &c->ecmult_gen_ctx) && cl->hash_ctx.fn_sha256_compression == c->hash_ctx.fn_sha256_compression
+                     && cl->illegal_callback.fn == c->illegal_callback.fn && cl->error_callback.fn == c->error_callback.fn && cl->declassify == c->declassify, "clone: one allocation, identical state");
+    pcl = secp256k1_context_preallocated_clone(c, &mem2);
+    __CPROVER_assert(pcl == &mem2 && malloc_calls == 2 && gen_same(&pcl->ecmult_gen_ctx, &c->ecmult_gen_ctx), "preallocated_clone: identical state, no allocation");
+    r = secp256k1_context_randomize(cl, NULL);
+    __CPROVER_assert(r == 1 && gen_same(&cl->ecmult_gen_ctx, &pc->ecmult_gen_ctx), "randomize(NULL) resets the blinding to the state of a freshly created context");
+    secp256k1_context_destroy(c); secp256k1_context_destroy(cl); secp256k1_context_preallocated_destroy(pc); secp256k1_context_preallocated_destroy(pcl);
+    __CPROVER_assert(verif_illegal_count == 0 && verif_error_count == 0, "no callbacks");      /* --memory-leak-check: both allocations released */
+    __CPROVER_assert(in.f1, "witness: seeded randomize"); __CPROVER_assert(!in.f1, "witness: NULL-seed randomize");
+}
+#endif
+
 #ifdef C20_BLIND
 /* ---- (2) blinding invariant: one inductive step of secp256k1_ecmult_gen_blind ---- */
 #define W_FIELD_TRANSPARENT
